@@ -144,6 +144,47 @@ pub(crate) mod serializer;
 mod shared;
 pub mod stream;
 
+/// Verification hooks (only with `--cfg sozu_verif`): read-only access to
+/// mux internals for the out-of-tree correspondence harness. Adds no
+/// behaviour; nothing in the crate uses it.
+#[cfg(sozu_verif)]
+pub mod verif {
+    pub use super::converter::H2BlockConverter;
+    pub use super::pkawa::{handle_header, handle_trailer};
+    /// the frame serializer (`pub(crate)` module, `pub` items)
+    pub mod serializer {
+        pub use super::super::serializer::*;
+    }
+    use super::stream::Stream;
+
+    /// `shared::end_stream_decision` as a stable string
+    /// (`forward-terminated`, `close-delimited`, `forward-unterminated`,
+    /// `send-default:<status>`, `reconnect`).
+    pub fn end_stream_decision(stream: &Stream) -> String {
+        use super::shared::EndStreamAction as A;
+        match super::shared::end_stream_decision(stream) {
+            A::ForwardTerminated => "forward-terminated".to_owned(),
+            A::CloseDelimited => "close-delimited".to_owned(),
+            A::ForwardUnterminated => "forward-unterminated".to_owned(),
+            A::SendDefault(s) => format!("send-default:{s}"),
+            A::Reconnect => "reconnect".to_owned(),
+        }
+    }
+
+    /// `router::authority_matches_sni`
+    pub fn authority_matches_sni(authority: &str, sni_lowercased: &str) -> bool {
+        super::router::authority_matches_sni(authority, sni_lowercased)
+    }
+
+    /// `router::authority_matched_cert_name`
+    pub fn authority_matched_cert_name<'a>(
+        authority: &str,
+        names: &'a [String],
+    ) -> Option<&'a str> {
+        super::router::authority_matched_cert_name(authority, names)
+    }
+}
+
 use crate::metrics::names;
 use crate::{
     BackendConnectionError, FrontendFromRequestError, L7ListenerHandler, L7Proxy, ListenerHandler,
